@@ -1,0 +1,19 @@
+//go:build verif
+
+package builtin
+
+// Contracts for the verification machinery in /verif (comment-only file; compiled
+// only with -tags verif and adds no code).
+
+//@ # ---- C19: config file names and splitting do not matter ----
+//@ # When the declarations of a class are split over several files, an earlier file's `extends`
+//@ # makes a later method look inherited.  The overload list that a declaration is appended to
+//@ # must be the one of the method registered under this class's own key, never an inherited one
+//@ # (that would change the parent class for every program).
+//@ func (*ti/builtin.defineBuiltinMethod).defineBuiltinInstanceMethod
+//@   sitesonly
+//@   callsite[C19] append existingT == ownMethod(frame, d.targetClass, method)
+//@   witnessgo site:call.0#0 kid := NewDefineBuiltinMethod("Builtin", "VerifKid"); par := NewDefineBuiltinMethod("Builtin", "VerifPar"); par.defineBuiltinInstanceMethod("Builtin", "m", []base.T{IntT}, IntT); kn := base.ClassNode{Frame: "Builtin", Class: "VerifKid"}; base.ClassInheritanceMap[kn] = append(base.ClassInheritanceMap[kn], base.ClassNode{Frame: "Builtin", Class: "VerifPar"}); kid.defineBuiltinInstanceMethod("Builtin", "m", []base.T{StringT}, StringT); violated = len(base.GetMethodT("Builtin", "VerifPar", "m", false).Overloads) > 0
+//@ func (*ti/builtin.defineBuiltinMethod).defineBuiltinStaticMethod
+//@   sitesonly
+//@   callsite[C19] append existingT == ownClassMethod(frame, d.targetClass, method)
